@@ -595,6 +595,16 @@ def _gen_print(g, r, dom, readable, o):
                 chunks.append([e, r.choice(["", "0", ">", "*<", "+"]) + "{}" + ty, [r.randint(1, 14)]])
         else:
             chunks.append([e, spec])
+        if o.get("format_extras", True) and not spec.endswith(("c", "s")):
+            q = r.random()
+            if q < 0.12:
+                # the value wrapped in a value-castable whose shape keeps the documented default ShapeCastable.format()
+                ch = chunks[-1]
+                chunks[-1] = [ch[0], ch[1], ch[2] if len(ch) > 2 else [], {"castable": True}]
+            elif q < 0.2:
+                # a conversion flag of the format-string syntax (!s, !r, !a) and no specification: for an integer Python prints
+                # what "{}" prints; Format may refuse the flag when the statement is built, or must print that
+                chunks[-1] = [e, "", [], {"conv": r.choice(["s", "r", "a"])}]
     if r.random() < 0.3:
         chunks.append(r.choice(["!", " end", ""]))
     if o.get("asserts") and r.random() < 0.35:
@@ -698,6 +708,39 @@ def _gray_struct(k, rest):
     return data.StructLayout({"count": Gray(k), "rest": rest})
 
 
+def _default_format_view(value):
+    """`value` wrapped in a ValueCastable whose shape is a ShapeCastable that does not override format()"""
+    from amaranth.hdl import ShapeCastable, ValueCastable, Value, Const
+
+    class Plain(ShapeCastable):
+        def __init__(self, shape):
+            self._shape = shape
+
+        def as_shape(self):
+            return self._shape
+
+        def const(self, init):
+            return Const(init or 0, self._shape)
+
+        def __call__(self, target):
+            return PlainView(target)
+
+        def from_bits(self, raw):
+            return raw
+
+    class PlainView(ValueCastable):
+        def __init__(self, target):
+            self._target = Value.cast(target)
+
+        def shape(self):
+            return Plain(self._target.shape())
+
+        def as_value(self):
+            return self._target
+
+    return PlainView(value)
+
+
 def build(prog):
     """-> Built with .top (Elaboratable), .sigs (list of Signal), .ongoing {(fsm id, state): Signal}"""
     from amaranth.hdl import (Module, Signal, Const, Cat, Mux, Array, signed, unsigned, Elaboratable, ResetInserter,
@@ -717,6 +760,7 @@ def build(prog):
             B.sigs[i_] = view_.as_value()
             assert B.sigs[i_].init == s_["init"] and len(B.sigs[i_]) == s_["width"]
     B.ongoing = {}
+    B.refused_conversions = 0
     from amaranth.hdl import ClockDomain
     B.shadow_cds = {d["name"]: ClockDomain(d["shadow_of"], clk_edge=d["edge"], async_reset=d["async_reset"], reset_less=d["reset_less"])
                     for d in prog["domains"] if d.get("shadow_of")}
@@ -790,8 +834,17 @@ def build(prog):
             if isinstance(ch, str):
                 s += ch.replace("{", "{{").replace("}", "}}")
             else:
+                opt = ch[3] if len(ch) > 3 else {}
+                if opt.get("conv"):
+                    try:
+                        args.append(Format("{!" + opt["conv"] + "}", ex(ch[0])))
+                    except (ValueError, TypeError):
+                        args.append(ex(ch[0]))          # refused when the statement is built: fine
+                        B.refused_conversions += 1
+                    s += "{}"
+                    continue
                 s += "{:" + ch[1] + "}" if ch[1] else "{}"
-                args.append(ex(ch[0]))
+                args.append(_default_format_view(ex(ch[0])) if opt.get("castable") else ex(ch[0]))
                 if len(ch) > 2:
                     args.extend(ch[2])
         return Format(s, *args)
